@@ -130,7 +130,7 @@ def run(chk: Check):
         if err > Fraction(1e3 * EPS * (1 + 16 * lam) * max(1.0, float(np.max(np.abs(y))))):
             chk.fail(f"hp trend differs from the exact rational solution by {float(err)!r} (n={n}, lambda={lam})", {"case": {"kind": "hp_exact", "n": n, "lambda": lam, "y": y.tolist()}})
     # derived filters
-    for _ in range(40 if chk.tier == "quick" else 500):
+    for it in range(40 if chk.tier == "quick" else 500):
         n = rng.choice([3, 5, 20, 100, 500, rng.randint(3, 2000)])
         y = np.exp(gen_series(rng, n, rng.choice(["walk", "alternating", "linear", "constant"])) * 0.05) * rng.choice([1.0, 100.0, 1.0, 1e-9, 1e-20, 1e-300, 1e6, 1e200])
         if rng.random() < 0.15:
@@ -143,9 +143,10 @@ def run(chk: Check):
                 j = rng.randrange(n - 1)
                 y[j], y[j + 1] = rng.choice([(1e-200, 1e200), (1e250, 1e-100), (5e-324, 1e300), (1e308, 1e-308)])
         y = np.clip(y, 5e-324, 1.7e308)
-        if rng.random() < 0.2:
-            # head counts: a positive series held in an integer (or float32) array
-            y = (np.round(np.clip(y, 1.0, 1e6) * rng.choice([1, 7, 100])) + 1).astype(rng.choice([np.int64, np.int32, np.float32]))
+        if it % 5 == 4:
+            # head counts: a positive, visibly varying series held in an integer (or float32) array; every dtype on every run
+            y = np.exp(gen_series(rng, n, "walk") * 0.05) * rng.choice([10.0, 100.0, 1000.0])
+            y = (np.round(np.clip(y, 1.0, 1e6) * rng.choice([1, 7, 100])) + 1).astype([np.int64, np.int32, np.float32][(it // 5) % 3])
             chk.count("filters:dtype:" + str(y.dtype))
         with warnings.catch_warnings():
             warnings.simplefilter("ignore")
